@@ -7,7 +7,7 @@
    exactly the source pixel at the mapped position (C16_nearest_translate_exact).  For other transforms the
    source pixel is tied by the f64 oracle (DESIGN.md, C16 partial). *)
 From Coq Require Import ZArith QArith Qabs List.
-From TS Require Import Base.F32 Model.WideBackends Model.Sampler Model.Nearest Proofs.SamplerProofs Proofs.SamplerIdeal Proofs.NearestCopy Proofs.NearestRepeat.
+From TS Require Import Base.F32 Model.WideBackends Model.Sampler Model.Nearest Proofs.SamplerProofs Proofs.SamplerIdeal Proofs.NearestCopy Proofs.NearestRepeat Proofs.NearestReflect.
 Import ListNotations.
 
 Theorem C16_gather_ix_in_bounds :
@@ -73,6 +73,18 @@ Theorem C16_nearest_translate_repeat :
    0 <= dx < 1000000 -> 0 <= lane <= 7 -> 0 <= dy < 1000000 ->
    nearest_ix b 2 w h (F32.of_Z tx) (F32.of_Z ty) dx lane dy = ((dy - ty) mod h) * w + ((dx + lane - tx) mod w))%Z.
 Proof. exact nearest_translate_repeat. Qed.
+(* "reflect mirrors": under SpreadMode::Reflect the pixel read is (refl (c - tx) w, refl (r - ty) h),
+   refl i n = let j := i mod 2n in if j < n then j else 2n - 1 - j *)
+Theorem C16_nearest_translate_reflect :
+  forall b w h tx ty dx lane dy,
+  (1 <= w <= 16384 -> 1 <= h <= 16384 -> Z.abs tx < 990000 -> Z.abs ty < 990000 ->
+   0 <= dx < 990000 -> 0 <= lane <= 7 -> 0 <= dy < 990000 ->
+   nearest_ix b 1 w h (F32.of_Z tx) (F32.of_Z ty) dx lane dy =
+     (let j := (dy - ty) mod (2 * h) in if j <? h then j else 2 * h - 1 - j) * w +
+     (let j := (dx + lane - tx) mod (2 * w) in if j <? w then j else 2 * w - 1 - j))%Z.
+Proof. exact nearest_translate_reflect. Qed.
+Example C16_nearest_reflect_example : nearest_ix SSE2 1 5 3 (F32.of_Z 7) (F32.of_Z 1) 40 2 40 = 14%Z.
+Proof. vm_compute. reflexivity. Qed.
 Example C16_nearest_repeat_example : nearest_ix SSE2 2 5 3 (F32.of_Z 7) (F32.of_Z 1) 40 2 40 = 0%Z.
 Proof. vm_compute. reflexivity. Qed.
 Example C16_nearest_pad_example : nearest_ix SSE2 0 5 3 (F32.of_Z 7) (F32.of_Z 1) 0 2 40 = 10%Z.
